@@ -625,16 +625,14 @@ inline bool get_value(const std::string& source)
 template<typename T>
 T fast_atoi(const char *str, const char term='\0')
 {
-	T retval(0);
-	if (std::is_signed<T>::value && *str == '-')	// accumulate downwards so that the minimum value parses
-	{
-		for (++str; *str != term; ++str)
-			retval = retval * 10 - (*str - '0');
-		return retval;
-	}
+	using U = typename std::make_unsigned<T>::type;	// accumulate unsigned: a value out of range wraps, no signed overflow
+	U retval(0);
+	const bool neg(std::is_signed<T>::value && *str == '-');
+	if (neg)
+		++str;
 	for (; *str != term; ++str)
-		retval = retval * 10 + (*str - '0');
-	return retval;
+		retval = retval * 10 + static_cast<U>(*str - '0');
+	return static_cast<T>(neg ? U(0) - retval : retval);
 }
 
 //----------------------------------------------------------------------------------------
